@@ -266,6 +266,9 @@ struct C04 : Property
 					s.depth = 64;
 				s.flags = 0;
 				ensure(s, ctx);
+				// a second brand-new parser is fed the same chunks from the very beginning: two tokeners never influence each other
+				// (nothing of the scanner state may live outside the tokener), and a new parser behaves like a new parser
+				s.mirror = new_tok(s.depth, s.flags);
 				ctx.log("op %zu new depth=%d", oi, s.depth);
 			}
 			else if (op.kind == "flags")
